@@ -196,5 +196,6 @@ func verifH_C05_order() {
 		o.q2 = append(o.q2, e, f)
 	}
 	o.observe("C05")
+	o.drain("C05")
 	verifReach("end")
 }
